@@ -17,10 +17,18 @@ per-layer    : the control state is PER OBJECT.  Heterogeneous configurations of
                constructor options of the SuperNetModules) are explored and replayed edge by edge as well: a
                model-level call must be a POINTWISE update (named thing everywhere, everything else as it was in
                that layer).
+two objects  : Fork = the model is copied (copy.deepcopy, or a pickle round trip where the wrapper can be pickled) at any
+               point of the history; the history continues on the copy and, interleaved, on the original.  Forking
+               configurations of NasControlMC are explored and replayed edge by edge; after the fork BOTH objects are
+               observed after every call: the addressed one must step like the machine, the other one must not change,
+               the copy must start from the original's state, share no object with it and satisfy every invariant
+               (partition, named = unnamed iterators, ...) on its own identity lists.
 """
 from __future__ import annotations
 
+import copy
 import json
+import pickle
 import random
 import re
 import tempfile
@@ -199,11 +207,13 @@ def _env():
     class Projector:
         """Structural view of one wrapper, built WITHOUT the nas/net reporting functions under test."""
 
-        def __init__(self, kind, model, x, hmap=None):
+        def __init__(self, kind, model, x, hmap=None, parent=None):
             self.kind, self.model, self.x = kind, model, x
             self.hmap = hmap                   # None: class-level machine; else abstract layer/block -> module name
-            self.ids: Dict[int, int] = {}
-            self.keep: List[Any] = []          # keeps every tensor we gave an id to alive (no id() reuse)
+            # identity registry, SHARED by the projectors of an original and its copy
+            self.ids: Dict[int, int] = parent.ids if parent is not None else {}
+            self.keep: List[Any] = parent.keep if parent is not None else []   # keeps every object alive (no id() reuse)
+            self.parent = parent
             # (owner module, attribute, class, owning layers (1-based), owning quantiser (1-based, 0 none))
             self.slots: List[Tuple[Any, str, str, List[int], int]] = []
             self.layers: List[Tuple[str, Any]] = []       # PIT layers (name, module)
@@ -211,7 +221,12 @@ def _env():
             self.qnames: List[str] = []
             self.live: List[bool] = []
             self._classify()
-            self._liveness()
+            if parent is not None:     # a copy: same structure, do not disturb it with a probing forward pass
+                self.live = list(parent.live)
+                if len(self.live) != len(self.quant):
+                    raise MachineryError("C11: the copy has another number of quantisers than the original")
+            else:
+                self._liveness()
             self._mc_names()
 
         def layer_index(self, name: str) -> int:
@@ -379,6 +394,8 @@ def _env():
                 "all": [self.oid(p) for p in m.parameters()],
                 "nas": [self.oid(p) for p in m.nas_parameters()],
                 "net": [self.oid(p) for p in m.net_parameters()],
+                "nnas": [self.oid(p) for _, p in m.named_nas_parameters()],
+                "nnet": [self.oid(p) for _, p in m.named_net_parameters()],
             }
             ps = []
             for (owner, attr, cls, own, qi), mo in zip(self.slots, self.mo):
@@ -417,7 +434,7 @@ def _env():
         # ------------------------------------------------------------ calls
         def resolve(self, act: Dict[str, Any]) -> Dict[str, Any]:
             """scenario call (layers / quantisers by module name) -> logged call (by index)"""
-            out = dict(act)
+            out = {k: v for k, v in act.items() if k != "o"}
             if act["a"] == "lflag":
                 out["l"] = self.layer_index(act["l"])
             elif act["a"] in ("lupd", "lsel"):
@@ -502,13 +519,33 @@ def _env():
         tr = {"kind": sc["kind"], "gum0": gum0, "dis0": [bool(sc["init"].get("disable", False))] * nq,
               "init": dict(pr.observe(), bwd="-"), "ev": []}
         mcs = sc.get("mc") or [NO_MC] * len(sc["acts"])
+        prs = {1: pr}
         for act, mc in zip(sc["acts"], mcs):
-            act = pr.resolve(act)
-            status = pr.apply(act)
-            o = pr.observe()
-            o["bwd"] = status
-            tr["ev"].append({"act": act, "obs": o, "mc": mc})
-            pr.clear_grads()
+            tgt = int(act.get("o", 1))
+            if act["a"] == "fork":
+                if 2 in prs:
+                    raise MachineryError("C11: scenario forks twice")
+                how = act.get("how", "deepcopy")
+                cp = None
+                if how == "pickle":
+                    try:
+                        cp = pickle.loads(pickle.dumps(pr.model))
+                    except Exception:       # not every wrapper can be pickled (fx GraphModule of a SuperNet): plain copy
+                        how = "deepcopy"
+                if cp is None:
+                    cp = copy.deepcopy(pr.model)
+                prs[2] = Projector(sc["kind"], cp, x, pr.hmap, parent=pr)
+                logged, status, tgt = {"a": "fork", "how": how}, "-", 2
+            else:
+                if tgt not in prs:
+                    raise MachineryError("C11: scenario addresses a copy before the fork")
+                logged = prs[tgt].resolve(act)
+                status = prs[tgt].apply(logged)
+            o1 = dict(prs[1].observe(), bwd=status if tgt == 1 else "-")
+            o2 = dict(prs[2].observe(), bwd=status if tgt == 2 else "-") if 2 in prs else NO_MC
+            tr["ev"].append({"act": logged, "o": tgt, "obs": o1, "obs2": o2, "mc": mc})
+            for q in prs.values():
+                q.clear_grads()
         return tr
 
     def meta(kind: str, variant: str) -> Dict[str, Any]:
@@ -533,31 +570,37 @@ def _upd(a: str, o: str, v: int) -> Dict[str, Any]:
 
 
 def _parse_label(lab: str, hmap=None) -> Dict[str, Any]:
-    """Edge label of the dump -> call of the scenario format (abstract layers / blocks mapped to module names)."""
+    """Edge label of the dump -> call of the scenario format (abstract layers / blocks mapped to module names;
+    "o" = the object addressed: 1 original, 2 copy)."""
     lab = lab.strip()
-    if lab == "FwdBwd":
-        return {"a": "fwdbwd"}
+    if lab == "Fork":
+        return {"a": "fork"}
     m = re.match(r"^(\w+)\((.*)\)$", lab, re.S)
     if not m:
         raise MachineryError(f"edge label {lab!r}")
     name, args = m.group(1), tlc.parse_value("<<" + m.group(2) + ">>")
-    if name == "Step":
-        return dict(args[0])
-    if name == "Train":
-        return {"a": "train", "g": args[0]}
-    if name == "SetFlag":
-        return {"a": "flag", "f": args[0], "v": bool(args[1])}
-    if name == "LFlag":
-        return {"a": "lflag", "l": hmap["layers"][args[0]], "f": args[1], "v": bool(args[2])}
-    if name == "Sel":
-        return {"a": "sel", "v": bool(args[0])}
-    if name == "LSel":
-        return {"a": "lsel", "b": hmap["blocks"][str(args[0])], "v": bool(args[1])}
-    if name == "Upd":
-        return _upd("upd", args[0], args[1])
-    if name == "LUpd":
-        return dict(_upd("lupd", args[1], args[2]), b=hmap["blocks"][str(args[0])])
-    raise MachineryError(f"edge label {lab!r}")
+    i, args = int(args[0]), args[1:]
+    if name == "FwdBwd":
+        act = {"a": "fwdbwd"}
+    elif name == "Train":
+        act = {"a": "train", "g": args[0]}
+    elif name == "SetFlag":
+        act = {"a": "flag", "f": args[0], "v": bool(args[1])}
+    elif name == "LFlag":
+        act = {"a": "lflag", "l": hmap["layers"][args[0]], "f": args[1], "v": bool(args[2])}
+    elif name == "Sel":
+        act = {"a": "sel", "v": bool(args[0])}
+    elif name == "LSel":
+        act = {"a": "lsel", "b": hmap["blocks"][str(args[0])], "v": bool(args[1])}
+    elif name == "Upd":
+        act = _upd("upd", args[0], args[1])
+    elif name == "LUpd":
+        act = dict(_upd("lupd", args[1], args[2]), b=hmap["blocks"][str(args[0])])
+    else:
+        raise MachineryError(f"edge label {lab!r}")
+    if i != 1:
+        act["o"] = i
+    return act
 
 
 def _covering_walks(nodes, edges, init, maxlen: int, rng: random.Random):
@@ -623,15 +666,18 @@ def _covering_walks(nodes, edges, init, maxlen: int, rng: random.Random):
     return walks
 
 
-def _mc_state(st: Dict[str, Any], hetero: bool) -> Dict[str, Any]:
-    mc = {"rg": st["rg"], "opt": st["opt"]}
+def _mc_state(st: Dict[str, Any], hetero: bool, call: Dict[str, Any]) -> Dict[str, Any]:
+    """state of the object the call addresses (the copy for a fork) in the target state of the edge"""
+    ob = st["objs"][(2 if call["a"] == "fork" else int(call.get("o", 1))) - 1]
+    mc = {"rg": ob["rg"], "opt": ob["opt"]}
     if not hetero:
-        mc["flags"] = st["flags"]       # getter memory is part of the class-level machine only
+        mc["flags"] = ob["flags"]       # getter memory is part of the class-level machine only
     return mc
 
 
 def _init_args(kind: str, st: Dict[str, Any], hetero: bool) -> Dict[str, Any]:
     """constructor arguments that produce the initial state `st`"""
+    st = st["objs"][0]
     if kind == "pit":
         if not hetero:
             return dict(st["flags"])
@@ -686,6 +732,10 @@ def _random_scenario(kind: str, variant: str, rng: random.Random, length: int, m
                 a["a"] = "lupd"
                 a["b"] = rng.choice(meta["quants"])
             acts.append(a)
+    if rng.random() < 0.5:      # copy the model somewhere; afterwards every call goes to the original or to the copy
+        k = rng.randint(0, len(acts))
+        how = "pickle" if (kind != "sn" and rng.random() < 0.5) else "deepcopy"
+        acts = acts[:k] + [{"a": "fork", "how": how}] + [dict(a, o=rng.choice([1, 2])) for a in acts[k:]]
     return {"kind": kind, "variant": variant, "init": init, "wseed": rng.randint(0, 999), "acts": acts,
             "hetero": False, "src": "random"}
 
@@ -728,7 +778,7 @@ def _graph_configs(tier: str, seed: int):
     """(kind, cfg, hetero, model variants, actions that must be covered)"""
     q = tier == "quick"
     sfx = "quick" if q else "thorough"
-    hom = {"pit": ["tcn"], "mps": ["layer", "channel"], "sn": ["std"]} if q else \
+    hom = {"pit": ["tcn"], "mps": ["channel"], "sn": ["std"]} if q else \
           {"pit": ["tcn", "cnn2d", "tcn_foldbn"], "mps": ["layer", "channel", "channel0"], "sn": ["std"]}
     out = [("pit", f"NasControlMC_pit_{sfx}", False, hom["pit"], ["SetFlag", "Train"]),
            ("mps", f"NasControlMC_mps_{sfx}", False, hom["mps"], ["Upd", "Train"]),
@@ -741,6 +791,10 @@ def _graph_configs(tier: str, seed: int):
     out += [("mps", f"NasControlMC_mpsh_{sfx}", True, ["channel"], ["Upd", "LUpd"]),
             ("sn", f"NasControlMC_snh_opt_{sfx}", True, ["std"], ["Upd", "LUpd"]),
             ("sn", f"NasControlMC_snh_ctl_{sfx}", True, ["std"], ["Sel", "LSel", "Train"])]
+    # two objects: the model is copied somewhere in the history
+    out += [("pit", f"NasControlMC_pitf_{sfx}", False, ["tcn"], ["Fork", "SetFlag", "Train"]),
+            ("mps", f"NasControlMC_mpsf_{sfx}", False, ["channel"], ["Fork", "Upd", "Train"]),
+            ("sn", f"NasControlMC_snf_{sfx}", False, ["std"], ["Fork", "Sel", "Train"])]
     return out
 
 
@@ -748,7 +802,8 @@ def run(tier: str, seed: int, replay=None) -> int:
     R = Run("C11", tier, seed, level="model_checking")
     R.rule = ("scenario = (kind of model, model variant, constructor's control arguments [per SuperNetModule for heterogeneous "
               "SuperNets], sequence of calls over {train_nas_only, train_net_only, train_net_and_nas, train_features/rf/dilation := T/F, "
-              "discrete_cost := T/F, train_selection := T/F, update_softmax_options(one option), forward+backward of loss+cost} and "
+              "discrete_cost := T/F, train_selection := T/F, update_softmax_options(one option), forward+backward of loss+cost, Fork = copy the "
+              "model (deepcopy / pickle round trip) and continue on the copy and on the original} and "
               "their per-layer forms {layer.train_<f> := v, layer.discrete_cost := v, quantiser.update_softmax_options(one option), "
               "combiner.softmax_temperature / hard_softmax / train_selection := v}). The sequences are walks from initial states that "
               "cover EVERY edge of every state graph TLC computes to closure for NasControlMC (class-level machine per kind; "
@@ -772,6 +827,9 @@ def run(tier: str, seed: int, replay=None) -> int:
         "the SuperNetModule constructor options); MPS has no per-layer trainability switch, PIT no sampling options",
         "quick tier: the heterogeneous PIT machine is explored for two disjoint pairs of switches (rotating with the seed: seeds "
         "0,1,2 cover all six pairs), the heterogeneous MPS machine without the disable option; thorough: all four switches / options",
+        "a model is copied at most once per history (two live objects); copies are made with copy.deepcopy and, for PIT and MPS "
+        "wrappers, with a pickle round trip (a SuperNet wrapper cannot be pickled: fx GraphModule; torch.save of any wrapper "
+        "fails on a module object) - where pickling raises the harness falls back to deepcopy and logs that",
         "eval-mode forward, export(), summary() and optimiser steps are not part of this property's alphabet (C10/C17/C18)",
     ]
     execute = _env()
@@ -786,10 +844,12 @@ def run(tier: str, seed: int, replay=None) -> int:
     scen: List[Dict[str, Any]] = []
     maxlen = 24 if tier == "quick" else 40
     configs = _graph_configs(tier, seed)
-    sanity = ["NasControlMC_pit_pinned", "NasControlMC_mps_pinned_kept", "NasControlMC_snh_bcast1"]
+    sanity = ["NasControlMC_pit_pinned", "NasControlMC_mps_pinned_kept", "NasControlMC_snh_bcast1",
+              "NasControlMC_pitf_idcache"]
     if tier != "quick":
         sanity += ["NasControlMC_pit_pinned_grad", "NasControlMC_mps_pinned", "NasControlMC_mpsh_bcast1",
-                   "NasControlMC_snh_homog", "NasControlMC_pith_homog"]
+                   "NasControlMC_snh_homog", "NasControlMC_pith_homog", "NasControlMC_mpsf_idcache_train",
+                   "NasControlMC_snf_idcache_iter", "NasControlMC_pitf_nodiverge"]
 
     # 1. design level (all TLC runs side by side) + dumps
     tlc.scratch()
@@ -825,11 +885,15 @@ def run(tier: str, seed: int, replay=None) -> int:
             calls = [_parse_label(lab, hmap) for _, _, lab in edges]
             walks = _covering_walks(nodes, edges, init, maxlen, random.Random(seed * 7919 + len(scen)))
             covered = set()
-            for start, walk in walks:
+            for wi, (start, walk) in enumerate(walks):
                 covered.update(walk)
+                acts = [dict(calls[k]) for k in walk]
+                for a in acts:      # copies are taken by deepcopy and, where the wrapper allows, by a pickle round trip
+                    if a["a"] == "fork":
+                        a["how"] = "pickle" if (kind != "sn" and wi % 2 == 1) else "deepcopy"
                 scen.append({"kind": kind, "variant": variant, "init": _init_args(kind, nodes[start], hetero),
-                             "wseed": seed, "acts": [calls[k] for k in walk], "hetero": hetero,
-                             "mc": [_mc_state(nodes[edges[k][1]], hetero) for k in walk], "src": cfg})
+                             "wseed": seed, "acts": acts, "hetero": hetero,
+                             "mc": [_mc_state(nodes[edges[k][1]], hetero, calls[k]) for k in walk], "src": cfg})
             if len(covered) != len(edges):
                 raise MachineryError(f"{cfg}/{variant}: walks cover {len(covered)} of {len(edges)} edges")
             edges_total += len(edges)
@@ -875,6 +939,7 @@ def run(tier: str, seed: int, replay=None) -> int:
     n_graph = sum(1 for s in scen if s["src"] not in ("random", "probe"))
     n_het = sum(1 for s in scen if s["hetero"])
     perlayer = ("lflag", "lupd", "lsel")
+    forks = [e["act"]["how"] for t in traces for e in t["ev"] if e["act"]["a"] == "fork"]
     R.sample({"scenario": {k: scen[0][k] for k in ("kind", "variant", "init")} | {"acts": scen[0]["acts"][:6]},
               "observed_after_first_call": {"p": traces[0]["ev"][0]["obs"]["p"][:6], "flags": traces[0]["ev"][0]["obs"]["flags"]}})
     j = next(i for i, s in enumerate(scen) if s["kind"] == "mps")
@@ -889,6 +954,11 @@ def run(tier: str, seed: int, replay=None) -> int:
                     "graph_walks": n_graph, "graph_walks_heterogeneous": n_het, "random_sequences": sum(1 for s in scen if s["src"] == "random"),
                     "pairwise_heterogeneity_probes": len(probes),
                     "calls_executed": sum(len(s["acts"]) for s in scen),
+                    "forks_executed": {"deepcopy": forks.count("deepcopy"), "pickle_round_trip": forks.count("pickle")},
+                    "calls_on_the_copy": sum(1 for t in traces for e in t["ev"] if e["o"] == 2 and e["act"]["a"] != "fork"),
+                    "calls_on_the_original_after_the_fork": sum(
+                        1 for t in traces for j, e in enumerate(t["ev"])
+                        if e["o"] == 1 and any(f["act"]["a"] == "fork" for f in t["ev"][:j])),
                     "per_layer_calls_executed": sum(1 for s in scen for a in s["acts"] if a["a"] in perlayer),
                     "model_level_calls_in_heterogeneous_state": _count_hetero_calls(traces),
                     "fwdbwd_executed": sum(1 for s in scen for a in s["acts"] if a["a"] == "fwdbwd"),
